@@ -7,7 +7,7 @@ from lib import gz, gbool, gopt, glist, gstr
 
 REQ = "From CfdmV Require Import Common.Base C19.Model C19.Run.\nOpen Scope string_scope."
 DEPENDS = []
-FIXED = "true"   # the model evaluated is the one of the repaired tree (handoff/C19-fix-*.diff)
+FIXED = "true"   # the model evaluated is the one of the repaired tree (handoff/C19-fix-*.diff, C19-fix2-*.diff)
 
 N_EXAMPLE = 12
 ARRAY_TYPES = ["dimension_coordinate", "auxiliary_coordinate", "cell_measure", "domain_ancillary",
@@ -126,6 +126,29 @@ def g_names(kw, cls):
             f"{gs(kw.get('interior_ring_name', 'i'))})")
 
 
+def g_cres(c, pair=False):
+    if c[0] == "err":
+        return f"(CErr {c[1]})"
+    if pair:
+        return f"(COk ({gs(c[1][0])}, {gs(c[1][1])}))"
+    return f"(COk {gs(c[1])})"
+
+
+def g_ddata(st):
+    u = st["units"]
+    units = "UNone" if u[0] == "none" else ("UOther" if u[0] == "other" else f"(UStr {gs(u[1])})")
+    shape = glist(st["shape"], lambda n: f"{int(n)}%nat")
+    elems = glist(st["elems"], lambda e: "EMasked" if e is None else f"(EVal {gs(e)})")
+    return (f"(mkDD {gbool(st['array'])} {units} {g_ostr(st['cal'])} {shape} {elems} "
+            f"{g_cres(st['c1'])} {g_cres(st['c2'], True)} {g_cres(st['cm'])})")
+
+
+def g_obs_text(o):
+    if o[0] == "ok":
+        return f"(Ok {gs(o[1])})"
+    return g_err(o[1])
+
+
 # ------------------------------------------------------------------ generators
 def rand_kw(rng, cls, clash=False):
     """A keyword variant of creation_commands for an object of class cls."""
@@ -186,7 +209,9 @@ PROP_POOL = [("standard_name", "air_temperature"), ("standard_name", "latitude")
              ("units", "not a unit"), ("units", "days since when"), ("units", ""), ("calendar", "noleap"),
              ("calendar", "360_day"), ("calendar", "martian"), ("positive", "up"),
              ("valid_range", {"arr": [0, 100]}), ("add_offset", {"np": "float32", "v": 1.5}),
-             ("scale", {"np": "int16", "v": 7}), ("flag_values", {"arr": [1, 2, 4]}), ("number", 3.5), ("count", 12)]
+             ("scale", {"np": "int16", "v": 7}), ("flag_values", {"arr": [1, 2, 4]}), ("number", 3.5), ("count", 12),
+             ("long_name", "two\nlines"), ("standard_name", "a\rb"), ("units", 5), ("units", {"np": "float32", "v": 2.5}),
+             ("calendar", 7), ("valid_max", {"np": "float64", "v": "inf"}), ("valid_min", {"np": "float32", "v": "-inf"})]
 
 
 def rand_props(rng, pmax=3):
@@ -202,8 +227,13 @@ def rand_dataspec(rng, shape=None, reftime=False):
     d = {"kind": kind, "start": rng.randint(0, 5)}
     if shape is not None:
         d["shape"] = shape
-    if kind != "b1" and rng.random() < 0.25:
+    if rng.random() < 0.25:
         d["mask"] = [rng.randint(0, 6) for _ in range(rng.choice([1, 2]))]
+    if kind == "str" and rng.random() < 0.2:
+        d["fill"] = rng.choice(["zz", "it's", ""])
+    if kind in ("f8", "f4") and rng.random() < 0.2:
+        d["special"] = {str(rng.randint(0, 5)): rng.choice(["nan", "inf", "-inf", "huge", "-huge"])
+                        for _ in range(rng.choice([1, 1, 2]))}
     if kind != "str" and kind != "b1":
         r = rng.random()
         if r < 0.2 or reftime:
@@ -215,6 +245,8 @@ def rand_dataspec(rng, shape=None, reftime=False):
             d["units"] = rng.choice(["m", "K", "degrees_north", "1", "not a unit", "kg m-2 s-1"])
         elif r < 0.45:
             d["calendar"] = "noleap"
+        elif r < 0.5:
+            d["units"] = rng.choice([{"np": "int64", "v": 5}, {"np": "float64", "v": 0.5}])
         if kind in ("f8", "f4", "i4", "i8") and rng.random() < 0.15:
             d["fill"] = rng.choice([-99, 9999])
     return d
@@ -384,7 +416,15 @@ def rand_skeleton(rng, tags):
         seen.add(c.get("key"))
     sk["constructs"] = cons
     if not sk["domain"]:
-        sk["cell_methods"] = [rand_cell_method(rng, len(axes)) for _ in range(rng.choice([0, 0, 1, 2]))]
+        ncm = rng.choice([0, 0, 1, 2, 2, 3]) if rng.random() > 0.06 else rng.randint(11, 13)
+        sk["cell_methods"] = [rand_cell_method(rng, len(axes)) for _ in range(ncm)]
+        if ncm > 1 and rng.random() < 0.35:
+            keys = [f"cellmethod{i}" for i in range(ncm)]
+            rng.shuffle(keys)
+            for cm, k in zip(sk["cell_methods"], keys):
+                cm["key"] = k
+        if ncm > 1:
+            tags.add("several-cell-methods")
         if rng.random() < 0.15:
             sk["globals"] = {"Conventions": None, "history": "made up"}
     sk["crefs"] = [rand_cref(rng) for _ in range(rng.choice([0, 0, 1, 2]))]
@@ -488,6 +528,119 @@ def build_cases(chk):
         kws=[{}], tags=["custom-keys"])
     add("corpus", ["empty", "Data"], kws=[], tags=["data-without-array"])
     add("corpus", ["data", {"shape": [3], "kind": "f8", "inf": True}], kws=[{}], tags=["nonfinite-data"])
+
+    # ---- corpus of the deepening pass (seeded changes C19-s1..s3 and the defects repaired by C19-fix2-*)
+    U0 = "days since 2000-01-01"
+    add("corpus", ["data", {"kind": "f8", "shape": [3], "units": U0, "calendar": "noleap", "special": {"1": "huge"}}],
+        kws=[{}], tags=["reftime-elements"])
+    add("corpus", ["data", {"kind": "f8", "shape": [1, 3], "units": U0, "special": {"1": "huge"}}], kws=[{}], tags=["reftime-elements"])
+    add("corpus", ["data", {"kind": "f8", "shape": [1], "units": U0, "special": {"0": "nan"}}], kws=[{}], tags=["reftime-elements"])
+    add("corpus", ["data", {"kind": "f8", "shape": [3], "units": U0, "special": {"1": "inf"}}], kws=[{}], tags=["reftime-elements"])
+    add("corpus", ["construct", {"type": "dimension_coordinate", "props": {"units": 5}, "data": {"kind": "f8", "shape": [2]}}],
+        kws=[{}], tags=["non-string-units"])
+    add("corpus", ["construct", {"type": "field_ancillary", "props": {"units": U0, "calendar": 7}, "data": {"kind": "f8", "shape": [2]}}],
+        kws=[{}], tags=["non-string-units"])
+    add("corpus", ["data", {"kind": "b1", "shape": [2], "mask": [1]}], kws=[{}], tags=["masked-boolean"])
+    add("corpus", ["data", {"kind": "str", "shape": [2], "fill": "zz"}], kws=[{}], tags=["string-fill-value"])
+    add("corpus", ["example", 0], mods=[["set_prop", None, "standard_name", "a\nb"]], kws=[{}, {"header": False}],
+        tags=["newline-in-identity"])
+    add("corpus", ["construct", {"type": "cell_measure", "measure": "area", "ncvar": "areacella", "external": True}],
+        kws=[{}], tags=["external-cell-measure"])
+    CM = lambda i, ax="domainaxis0": {"axes": [ax], "method": ["mean", "maximum", "minimum", "sum", "variance", "median"][i % 6],
+                                      "quals": {"comment": f"step {i}"}}
+    add("corpus", ["example", 0], mods=[["del_cms"], ["insert_cm", CM(0), "cellmethod1"], ["insert_cm", CM(1), "cellmethod0"]],
+        kws=[{}, {"header": False}], tags=["cell-method-order"])
+    add("corpus", ["example", 0], mods=[["insert_cm", CM(i, f"domainaxis{i % 2}")] for i in range(11)],
+        kws=[{}, {"namespace": "", "string": False}], tags=["cell-method-order"])
+    CLIM = [["insert_cm", {"axes": ["domainaxis2"], "method": "minimum", "quals": {"within": "years"}}],
+            ["insert_cm", {"axes": ["domainaxis2"], "method": "mean", "quals": {"over": "years"}}]]
+    add("corpus", ["example", 0], mods=CLIM + [["copy"]], kws=[{}], tags=["climatology"])
+    add("corpus", ["example", 0], mods=CLIM + [["copy"]], select=[["domain"]], kws=[{}], tags=["climatology"])
+    add("corpus", ["example", 0], mods=CLIM, select=[["nth", "dimension_coordinate", 2]], kws=[{}], tags=["climatology"])
+
+    # ---- reference-time data of every small size; each position in turn holds an unconvertible / huge /
+    #      NaN / infinite / masked value; with and without calendar; rows, columns, bad units, bad calendar
+    rt = []
+    for n in range(0, 6):
+        shapes = [[n], [1, n], [n, 1]] if n else [[0], [1, 0]]
+        for shape in shapes:
+            for cal in (None, "noleap", "martian"):
+                for units in (U0, "days since when"):
+                    if (cal == "martian" or units != U0) and shape != [n]:
+                        continue
+                    base = {"kind": "f8", "shape": shape, "units": units, "start": 2}
+                    if cal:
+                        base["calendar"] = cal
+                    rt.append(base)
+                    for pos in range(n):
+                        for bad in ("nan", "inf", "-inf", "huge", "-huge", "masked"):
+                            d = dict(base)
+                            if bad == "masked":
+                                d["mask"] = [pos]
+                            else:
+                                d["special"] = {str(pos): bad}
+                            rt.append(d)
+    primary = [d for d in rt if len(d["shape"]) == 1 and d["units"] == U0 and d.get("calendar") != "martian"
+               and (d.get("special") or {"x": "-huge"}).get(next(iter(d.get("special") or {"x": 0})), "") not in ("-inf", "-huge")]
+    others = [d for d in rt if d not in primary]
+    rng.shuffle(others)
+    for d in primary + others[:N(120, 100000)]:
+        add("reftime-elements", ["data", d], kws=[{}] if d["shape"] != [0, 2] else [], tags=["reftime-elements"])
+    # ... and the same data inside a coordinate (with bounds) of a field and of its domain
+    inside = list(primary)
+    rng.shuffle(inside)
+    for d in inside[:N(40, 400)]:
+        n = d["shape"][0]
+        props = {"standard_name": "time", "units": d["units"]}
+        if d.get("calendar"):
+            props["calendar"] = d["calendar"]
+        con = {"type": "dimension_coordinate", "axes": [0], "props": props, "data": dict(d)}
+        if n and rng.random() < 0.5:
+            con["bounds"] = dict(d, trail=[2])
+            con["bounds"].pop("calendar", None)
+        sk = {"axes": [{"size": n}], "data": {"kind": "f4", "axes": [0]}, "constructs": [con]}
+        add("reftime-elements", ["skeleton", sk], select=rng.choice([[], [["domain"]], [["nth", "dimension_coordinate", 0]]]),
+            kws=[{}], tags=["reftime-elements"])
+
+    # ---- cell methods whose keys do not sort into application order
+    for n in range(N(24, 120)):
+        ex = rng.choice([0, 1, 2, 3, 5, 7])
+        mods = [["del_cms"]] if rng.random() < 0.5 else []
+        r = rng.random()
+        if r < 0.4:
+            k = rng.randint(11, 14)
+            mods += [["insert_cm", CM(i, f"domainaxis{i % 2}")] for i in range(k)]
+        else:
+            k = rng.randint(2, 6)
+            keys = [f"cellmethod{i}" for i in range(k)] if r < 0.8 else rng.sample(["zeta", "alpha", "cm_9", "cm_10", "b2", "a7", "M"], k)
+            rng.shuffle(keys)
+            mods += [["insert_cm", CM(i, f"domainaxis{i % 2}"), keys[i]] for i in range(k)]
+        add("cell-method-order", ["example", ex], mods=mods, kws=[{}, rand_kw(rng, "Field")], tags=["cell-method-order"])
+
+    # ---- coordinate references with Data-valued datum AND conversion parameters under every namespace variant
+    CREF = {"ncvar": "crs", "coords": ["dimensioncoordinate0", "dimensioncoordinate1"],
+            "datum": {"earth_radius": {"data": 6371.007, "units": "km"}, "towgs84": {"data": [1.5, 2.5]}},
+            "conv": {"grid_mapping_name": "polar_stereographic", "false_easting": {"data": 500.0, "units": "km"},
+                     "standard_parallel": {"data": [20.0, 50.0], "units": "degrees_north"}}}
+    for ns in (None, "", "cfdm", "cfdm.", "xyz", "xyz.", "my_cfdm"):
+        kw = {} if ns is None else {"namespace": ns}
+        add("cref-data-params", ["cref", CREF], kws=[kw, dict(kw, header=False), dict(kw, string=False, indent=4)],
+            tags=["data-valued-parameter"])
+        add("cref-data-params", ["cref", {"datum": CREF["datum"]}], kws=[kw], tags=["data-valued-parameter"])
+        add("cref-data-params", ["cref", {"conv": CREF["conv"]}], kws=[kw], tags=["data-valued-parameter"])
+        add("cref-data-params", ["example", 0], mods=[["insert_cref", CREF]], kws=[kw, dict(kw, header=False)],
+            tags=["data-valued-parameter"])
+        add("cref-data-params", ["example", 0], mods=[["insert_cref", CREF]], select=[["domain"]], kws=[kw],
+            tags=["data-valued-parameter"])
+
+    # ---- climatological time: copies, domains
+    for ex in (0, 2, 7):
+        f = {0: "domainaxis2", 2: "domainaxis0", 7: "domainaxis0"}[ex]
+        clim = [["insert_cm", {"axes": [f], "method": "minimum", "quals": {"within": "years"}}],
+                ["insert_cm", {"axes": [f], "method": "mean", "quals": {"over": "years"}}]]
+        for sel in ([], [["domain"]]):
+            add("climatology", ["example", ex], mods=clim + [["copy"]], select=sel, kws=[{}], tags=["climatology"])
+            add("climatology", ["example", ex], mods=clim, select=sel, kws=[{}], tags=["climatology"])
 
     # ---- example fields: every part, default and random keyword variants
     parts = [[], [["domain"]], [["data"]]]
@@ -680,6 +833,7 @@ def run(chk, model_ok):
     explained = set()
     desc_lits, desc_idx, cc_lits, cc_idx = [], [], [], []
     cc_seen = set()
+    ds_lits, ds_idx, ds_seen = [], [], set()
     seen_classes = set()
     for c, r in done:
         stats["families"][c["fam"]] = stats["families"].get(c["fam"], 0) + 1
@@ -694,7 +848,8 @@ def run(chk, model_ok):
                                 or "AttributeError" in r["build_err"] or "ValueError" in r["build_err"]):
                 stats["selection_missed"] += 1
                 continue
-            if c["fam"] == "skeleton" and r["build_err"].startswith("ValueError: Can't set"):
+            if c["fam"] in ("skeleton", "standalone", "reftime-elements") and (
+                    r["build_err"].startswith("ValueError: Can't set") or "is not iterable" in r["build_err"]):
                 # set_construct refused the generated combination: not an object of the space
                 stats["recipes_refused_by_api"] = stats.get("recipes_refused_by_api", 0) + 1
                 continue
@@ -766,6 +921,31 @@ def run(chk, model_ok):
                          {"correspondence": "C19.Run.check_cc", "input": c, "kw": kw})
 
         # ---- literals for the correspondence
+        if r.get("datas_err"):
+            chk.fail("correspondence", "harness-error", f"could not read the Data objects of case {c['i']}: {r['datas_err']}",
+                     {"correspondence": "drive/c19.py data_rows", "input": c})
+        for dr in r.get("datas", []):
+            if "st" not in dr:
+                chk.fail("correspondence", "harness-error", f"could not read a Data object of case {c['i']}: {dr.get('state_err')}",
+                         {"correspondence": "drive/c19.py ddata_state", "input": c})
+                continue
+            stats["data_str_cases"] = stats.get("data_str_cases", 0) + 1
+            n = 1
+            for k in dr["st"]["shape"]:
+                n *= k
+            key = ("reftime:" if dr["st"]["units"][0] == "str" and "since" in dr["st"]["units"][1] else "plain:") + \
+                  (str(n) if n <= 4 else "5+")
+            stats.setdefault("data_str_sizes", {})
+            stats["data_str_sizes"][key] = stats["data_str_sizes"].get(key, 0) + 1
+            for ck in ("c1", "c2", "cm"):
+                if dr["st"][ck][0] == "err":
+                    stats.setdefault("conversion_errors", {})
+                    stats["conversion_errors"][dr["st"][ck][1]] = stats["conversion_errors"].get(dr["st"][ck][1], 0) + 1
+            lit = f"({g_ddata(dr['st'])}, {g_obs_text(dr['obs'])})"
+            if lit not in ds_seen:
+                ds_seen.add(lit)
+                ds_lits.append(lit)
+                ds_idx.append((c["i"], dr))
         if r.get("state") is not None:
             st = r["state"]
             lit = (f"({FIXED}, {g_state(st)}, {g_sitems(r.get('str_items'), r['insp'].get('str'))}, "
@@ -813,6 +993,15 @@ def run(chk, model_ok):
             chk.fail("correspondence", "state-outside-invariant",
                      "a state built through the public API does not satisfy Model.inv_partial",
                      {"correspondence": "C19.Run.check_inv", "input": cases[i], "observed": rows[i].get("state")})
+        bad = lib.coq_bad_indices("C19", REQ, "check_data_str", ds_lits, chunk=300)
+        ncorr += len(ds_lits)
+        for b in bad[:40]:
+            i, dr = ds_idx[b]
+            if i in explained:
+                continue
+            chk.fail("correspondence", "model-vs-impl",
+                     "the model of Data.__str__ (element look-ups, conversions, layout) and str(data) disagree",
+                     {"correspondence": "C19.Run.check_data_str", "input": cases[i], "observed": dr})
         bad = lib.coq_bad_indices("C19", REQ, "check_cc", cc_lits, chunk=60)
         ncorr += stats.get("cc_cases", 0)
         for b in bad[:40]:
@@ -854,18 +1043,29 @@ def run(chk, model_ok):
         "selections_without_target": stats["selection_missed"],
         "recipes_refused_by_api": stats.get("recipes_refused_by_api", 0),
         "distinct_command_cases_evaluated_in_coq": len(cc_lits),
+        "data_str_objects": stats.get("data_str_cases", 0),
+        "distinct_data_str_cases_evaluated_in_coq": len(ds_lits),
+        "data_str_sizes": stats.get("data_str_sizes", {}),
+        "conversion_error_classes_seen": stats.get("conversion_errors", {}),
         "states_outside_weak_invariant": stats.get("states_outside_weak_invariant"),
         "seconds_driving_implementation": round(t_impl, 1),
         "seconds_evaluating_model_in_coq": round(t_coq, 1),
         "exhaustive": False,
         "historical_refutations": "C19/Refuted.v: witnesses against the pinned commit (F19a missing axes, "
-                                  "coordinate names ignored, tag of custom keys)",
+                                  "coordinate names ignored, tag of custom keys), against Data.__str__ before fix2-1 "
+                                  "(NaN / inf reference times), against an unguarded middle conversion and against "
+                                  "cell methods emitted in sorted key order",
     })
     chk.assumptions += [
-        "text attributes (units, calendar, cell-method qualifiers, netCDF names) are strings, as CF requires; "
-        "non-string values of those are outside the generated space",
-        "float data are finite or masked: NaN is excluded because cfdm's equals does not make NaN equal to itself "
-        "(no rebuilt construct could be 'equal'); +/-inf data is recorded as an open finding",
+        "cell-method qualifiers and netCDF names are strings, as CF requires; units and calendar that are not strings "
+        "(numbers, numpy scalars) ARE generated, for constructs and for Data",
+        "float data may hold NaN and +/-inf: an object holding NaN is not equal to its own copy under cfdm's equals, so the "
+        "rebuilt object is then judged by the independent fingerprint (NaN equal to NaN) instead of equals",
+        "the outcomes of the date-time conversions (netCDF4.num2date through Data.datetime_array) are inputs of the model of "
+        "Data.__str__: the harness performs them on the same scalar / pair the code converts and hands text or exception class to Coq",
+        "a cell method edited in place after insertion so that a non-time axis becomes 'climatological' bypasses the validation "
+        "of set_construct; such states are not generated (their commands are refused by set_construct when executed)",
+        "every array returned by the implementation to the harness is overwritten in place after it was recorded",
         "Data objects given to creation_commands hold an array (equals itself raises on cfdm.Data() without one)",
         "the fresh namespace contains only what the 'namespace' keyword documents: `import cfdm`, "
         "`import cfdm as <ns>` or `from cfdm import *`; no numpy",
